@@ -219,6 +219,9 @@ fn directed() -> Vec<(&'static str, Vec<Ev>)> {
         ("unregistered identity cannot connect", vec![Connect(0, 2), DataIn(0), DataOut(0), Register(0, 2, 10), Connect(0, 2), DataIn(0)]),
         ("zero lifetime", vec![Register(0, 0, 0), Connect(0, 0), Purge, Register(0, 0, 0)]),
         ("timer ticks keep the tunnel", vec![Register(0, 0, 30), Connect(0, 0), Tick, Tick, DataIn(0), Tick, DataOut(0)]),
+        ("re-registration under the same key, then superseded", vec![Register(0, 0, 30), Register(0, 0, 30), Register(0, 1, 30), Connect(0, 0), Connect(1, 1), DataIn(1)]),
+        ("re-registration moves the identity to the new key only", vec![Register(0, 0, 30), Register(1, 0, 10), Register(0, 1, 30), Advance(10), Register(1, 2, 5)]),
+        ("re-registration after a purge under another key", vec![Register(0, 0, 5), Register(0, 0, 5), Advance(5), Purge, Register(1, 0, 5), Register(0, 1, 5), Register(1, 1, 5)]),
         ("same identity on two addresses", vec![Register(0, 0, 30), Connect(0, 0), Connect(1, 0), DataIn(0), DataIn(1), Advance(30), DataIn(0), DataIn(1)]),
     ]
 }
